@@ -122,10 +122,50 @@ type Sel struct {
 	Where  []string // optional: "i=pattern" constraints on arguments that select the site (not checked as obligations)
 }
 
+// sites returns the calls in f to callee. callee is a '|'-separated list of canonical names, each optionally
+// followed by a selector "[i=pattern]" restricting the sites to those whose argument i matches.
 func (c *Ctx) sites(f *ir.Func, callee string) []ssa.CallInstruction {
-	cs := f.CallsTo(strings.Split(callee, "|")...)
-	c.R.CallSites += len(cs)
-	return cs
+	var out []ssa.CallInstruction
+	for _, alt := range splitTop(callee) {
+		name, sel := alt, ""
+		if i := strings.Index(alt, "["); i > 0 && strings.HasSuffix(alt, "]") {
+			name, sel = alt[:i], alt[i+1:len(alt)-1]
+		}
+		for _, call := range f.CallsTo(name) {
+			if sel != "" {
+				k := strings.Index(sel, "=")
+				idx := 0
+				fmt.Sscanf(sel[:k], "%d", &idx)
+				args := f.CallArgs(call)
+				if idx >= len(args) || !ir.MatchAny(sel[k+1:], args[idx]) {
+					continue
+				}
+			}
+			out = append(out, call)
+		}
+	}
+	c.R.CallSites += len(out)
+	return out
+}
+
+// splitTop splits on '|' outside brackets/parentheses.
+func splitTop(s string) []string {
+	var out []string
+	depth, st := 0, 0
+	for i := 0; i < len(s); i++ {
+		switch s[i] {
+		case '(', '[':
+			depth++
+		case ')', ']':
+			depth--
+		case '|':
+			if depth == 0 && !(i > 0 && s[i-1] == ' ') {
+				out = append(out, s[st:i])
+				st = i + 1
+			}
+		}
+	}
+	return append(out, s[st:])
 }
 
 func (c *Ctx) xs(in []string) []string {
@@ -547,4 +587,161 @@ func (c *Ctx) followedBy(f *ir.Func, from ssa.Instruction, calls []ssa.CallInstr
 		}
 	}
 	return true
+}
+
+// NeverAfter: no execution of fn calls `later` after having called `earlier`... i.e. no call to `second` is reachable
+// from a call to `first` (used as: NeverAfter(fn, first=B, second=A) = "A never happens after B").
+func (c *Ctx) NeverAfter(fnSpec, first, second, desc string) {
+	r := "neverafter/" + first + ">" + second
+	first, second = c.X(first), c.X(second)
+	f := c.Fn(fnSpec)
+	if f == nil {
+		return
+	}
+	fs, ss := c.sites(f, first), c.sites(f, second)
+	if len(fs) == 0 || len(ss) == 0 {
+		c.add("O", fnSpec, r, desc, report.Violated, fmt.Sprintf("calls found: %s=%d %s=%d", first, len(fs), second, len(ss)), c.fnPos(f))
+		return
+	}
+	for _, a := range fs {
+		for _, b := range ss {
+			if instrReaches(a, b) {
+				c.add("O", fnSpec, r, desc, report.Violated, second+" can execute after "+first, c.posOf(b))
+				return
+			}
+		}
+	}
+	c.add("O", fnSpec, r, desc, report.OK, fmt.Sprintf("%d×%d site pairs", len(fs), len(ss)), c.posOf(fs[0]))
+}
+
+// instrReaches: can b execute after a?
+func instrReaches(a, b ssa.Instruction) bool {
+	if a.Block() == b.Block() {
+		ia, ib := -1, -1
+		for i, ins := range a.Block().Instrs {
+			if ins == a {
+				ia = i
+			}
+			if ins == b {
+				ib = i
+			}
+		}
+		if ia < ib {
+			return true
+		}
+	}
+	seen := map[*ssa.BasicBlock]bool{}
+	work := append([]*ssa.BasicBlock{}, a.Block().Succs...)
+	for len(work) > 0 {
+		x := work[len(work)-1]
+		work = work[:len(work)-1]
+		if seen[x] {
+			continue
+		}
+		seen[x] = true
+		if x == b.Block() {
+			return true
+		}
+		work = append(work, x.Succs...)
+	}
+	return false
+}
+
+// LoopFree: the control-flow graph of fn has no cycle.
+func (c *Ctx) LoopFree(fnSpec, desc string) {
+	f := c.Fn(fnSpec)
+	if f == nil {
+		return
+	}
+	color := map[*ssa.BasicBlock]int{}
+	var cyc *ssa.BasicBlock
+	var dfs func(b *ssa.BasicBlock)
+	dfs = func(b *ssa.BasicBlock) {
+		color[b] = 1
+		for _, s := range b.Succs {
+			if color[s] == 1 {
+				cyc = s
+			} else if color[s] == 0 {
+				dfs(s)
+			}
+		}
+		color[b] = 2
+	}
+	dfs(f.Fn.Blocks[0])
+	if cyc != nil {
+		pos := c.fnPos(f)
+		for _, ins := range cyc.Instrs {
+			if ins.Pos().IsValid() {
+				pos = c.P.Rel(ins.Pos())
+				break
+			}
+		}
+		c.add("O", fnSpec, "loopfree", desc, report.Violated, "the function contains a loop", pos)
+		return
+	}
+	c.add("O", fnSpec, "loopfree", desc, report.OK, fmt.Sprintf("%d blocks, no cycle", len(f.Fn.Blocks)), c.fnPos(f))
+}
+
+// LoopNoEarlyExit: no return, panic or jump out of a loop body of fn other than through the loop header's exit edge
+// (every element of the iterated collection is visited).
+func (c *Ctx) LoopNoEarlyExit(fnSpec, desc string) {
+	f := c.Fn(fnSpec)
+	if f == nil {
+		return
+	}
+	n := 0
+	for _, h := range f.Fn.Blocks {
+		// loop header: has a predecessor it dominates
+		var latch []*ssa.BasicBlock
+		for _, p := range h.Preds {
+			if h.Dominates(p) {
+				latch = append(latch, p)
+			}
+		}
+		if len(latch) == 0 {
+			continue
+		}
+		n++
+		// natural loop body
+		body := map[*ssa.BasicBlock]bool{h: true}
+		work := append([]*ssa.BasicBlock{}, latch...)
+		for len(work) > 0 {
+			b := work[len(work)-1]
+			work = work[:len(work)-1]
+			if body[b] {
+				continue
+			}
+			body[b] = true
+			work = append(work, b.Preds...)
+		}
+		for b := range body {
+			if b == h {
+				continue
+			}
+			for _, s := range b.Succs {
+				if !body[s] {
+					c.add("O", fnSpec, "loopnoexit", desc, report.Violated, "the loop body can leave the loop early", c.blockPos(b, f))
+					return
+				}
+			}
+			if len(b.Succs) == 0 {
+				c.add("O", fnSpec, "loopnoexit", desc, report.Violated, "the loop body returns or panics", c.blockPos(b, f))
+				return
+			}
+		}
+	}
+	if n == 0 {
+		c.add("O", fnSpec, "loopnoexit", desc, report.Violated, "no loop found", c.fnPos(f))
+		return
+	}
+	c.add("O", fnSpec, "loopnoexit", desc, report.OK, fmt.Sprintf("%d loop(s)", n), c.fnPos(f))
+}
+
+func (c *Ctx) blockPos(b *ssa.BasicBlock, f *ir.Func) string {
+	for _, ins := range b.Instrs {
+		if ins.Pos().IsValid() {
+			return c.P.Rel(ins.Pos())
+		}
+	}
+	return c.fnPos(f)
 }
